@@ -20,8 +20,8 @@ MIRI_PLAN = {
         "thorough": [("miri_tag_slices", 2), ("miri_own_slices", 2), ("miri_tag_arrays", 2), ("miri_own_arrays", 2), ("array_fns", 8)],
     },
     "C18": {
-        "quick": [("iter_histories", 10), ("iter_random", 2), ("conversions", 2), ("slice_views", 2)],
-        "thorough": [("iter_histories", 16), ("iter_random", 6), ("conversions", 6), ("slice_views", 4)],
+        "quick": [("iter_histories", 10), ("iter_random", 2), ("iter_consume", 6), ("conversions", 2), ("slice_views", 2)],
+        "thorough": [("iter_histories", 16), ("iter_random", 6), ("iter_consume", 8), ("conversions", 6), ("slice_views", 4)],
     },
 }
 
